@@ -47,6 +47,9 @@ def _array(interp, args, kwargs, node):
 
 
 def _eye(interp, args, kwargs, node):
+    if kwargs or len(args) != 1:
+        # dtype / k / order change what block stores do to the matrix (an integer matrix truncates a rotation block): not modelled
+        raise EngineError(f"np.eye with further arguments {sorted(kwargs)} (line {getattr(node, 'lineno', '?')}): no assumed contract")
     n = args[0].const
     if n != 4:
         return VOpaque("ndarray", None, data={"kind": "eye", "eye": n})
